@@ -87,3 +87,14 @@ def programs(maxlen):
 
 
 INPUTS = [0, 1, 4]
+
+
+def quick_family(seed):
+    """quick tier: all sequences of length <= 2, the copy chains, the whole second alphabet, and a seeded third of the 2744 sequences
+    of length 3 over the first alphabet"""
+    import random
+    fam = programs(3)
+    three = [x for x in fam if len(x[0].split("-")) == 3 and all(nm in TEMPLATES for nm in x[0].split("-"))]
+    ids = set(id(x) for x in three)
+    keep = set(id(x) for x in random.Random(seed).sample(three, len(three) // 3))
+    return [x for x in fam if id(x) not in ids or id(x) in keep]
